@@ -248,6 +248,48 @@ def gen_idset_trace(rng, kind, maxid, nops):
     return trace
 
 
+def small_universe_traces(maxlimit):
+    """Every subset of 0..limit-1 for every small limit, in every class and through the reversing view: the
+    answers of all the read calls (what a random program reaches rarely: the sets with only 0, only the last
+    id, everything, nothing)."""
+    import itertools
+    trs, meta = [], []
+    for limit in range(1, maxlimit + 1):
+        for r in range(limit + 1):
+            for sub in itertools.combinations(range(limit), r):
+                for base in ("BitSet", "SortedIntSet"):
+                    for view in (None, "ReverseIdSet"):
+                        kinds = {1: base, 2: view}
+                        w = IdSetWorld(lambda r_: kinds[r_])
+                        trace = []
+
+                        def emit(e):
+                            res, err = w.apply(e)
+                            e = dict(e, res=res, err=err)
+                            if e["o"] in w.objs:
+                                e["cls"] = type(w.objs[e["o"]]).__name__
+                            trace.append(e)
+                        emit(_ev("new", xs=list(sub), r=1))
+                        o = 1
+                        if view:
+                            emit(_ev("new_reverse", p=1, n=limit, r=2))
+                            o = 2
+                        members = [x for x in range(limit) if (x in sub) != bool(view)]
+                        emit(_ev("len", o=o))
+                        emit(_ev("iter", o=o))
+                        if members:
+                            emit(_ev("first", o=o))
+                            emit(_ev("last", o=o))
+                        for x in range(limit):
+                            emit(_ev("contains", o=o, n=x))
+                            if not view:
+                                emit(_ev("before", o=o, n=x))
+                                emit(_ev("after", o=o, n=x))
+                        trs.append(trace)
+                        meta.append(view or base)
+    return trs, meta
+
+
 def check_idset(run, quick):
     # 1. design model
     res = tlc.run_tlc("IdSet", "IdSetMC.cfg", coverage=True)
@@ -302,6 +344,9 @@ def check_idset(run, quick):
             t = gen_idset_trace(rng, kind, maxid, rng.randrange(3, 25))
             trs.append(t)
             meta.append(kind)
+    trs2, meta2 = small_universe_traces(4 if quick else 5)
+    trs += trs2
+    meta += meta2
     v = tr.validate(run, "IdSetTrace", "IdSetTrace.cfg", trs, name="IdSetTrace")
     run.count(sum(len(t) for t in trs))
     rejected = set()
